@@ -5,7 +5,7 @@ export GOFLAGS=-mod=mod GOPROXY=off GOSUMDB=off GOTOOLCHAIN=local
 out=/verif/seeded
 mkdir -p $out
 for d in /tmp/seed/C*/_out/m*; do
-  id=$(echo $d | sed 's|/tmp/seed/\(C[0-9]*\)/_out/\(m[0-9]\)|\1-\2|')
+  id=$(echo $d | sed 's|/tmp/seed/\(C[0-9]*\)/_out/\(m[0-9][0-9]*\)|\1-\2|')
   [ -f "$d/patch.diff" ] || continue
   prop=${id%%-*}
   w=$(mktemp -d /tmp/seedchk-XXXXXX)
